@@ -34,6 +34,8 @@ class Key:
 
     def __lt__(self, other):
         FAULT.point('key.__lt__')
+        if not isinstance(other, Key):
+            return NotImplemented  # incomparable with foreign key types -> TypeError -> fallback sort
         return self.v < other.v
 
     def __repr__(self):
@@ -91,7 +93,7 @@ def pred(x):
     return type(x) is tuple and len(x) == 2 and type(x[0]) is Leaf and x[0].i == 99
 
 
-SCENARIOS = ('dict-keys', 'custom-nested', 'odict-ddict', 'seq-mix')
+SCENARIOS = ('dict-keys', 'custom-nested', 'odict-ddict', 'seq-mix', 'mixed-keys')
 
 
 class World:
@@ -111,6 +113,11 @@ class World:
             self.tree = CX([CX([L[0], {k[0]: L[1], k[1]: L[2]}], m[1]), L[3], box], m[0])
         elif scenario == 'odict-ddict':
             self.tree = OrderedDict([(k[0], defaultdict(list, {k[1]: L[0], k[2]: CX([L[1]], m[0])})), (k[1], L[2])])
+        elif scenario == 'mixed-keys':
+            # keys of several mutually incomparable types: the direct sort fails with TypeError and the
+            # (type name, key) fallback sort compares the instrumented keys among themselves
+            self.tree = {k[0]: L[0], 3: [L[1], box], k[1]: CX([L[2]], m[0]), 'z': L[3], k[2]: defaultdict(
+                list, {k[0]: L[4], 2.5: L[5], k[1]: L[6]})}
         else:
             self.tree = [deque([L[0], CX([L[1]], m[0])], maxlen=4), un.NT2(L[2], CX([], m[1])), (L[3], None, box)]
         self.scenario = scenario
